@@ -374,6 +374,12 @@ EvMAsg == IsEv /\ X.e = "masg" /\
 EvLet == IsEv /\ X.e = "let" /\
   Go([st EXCEPT !.c = Ev(X.v), !.k = Push(st.k, [f |-> "let", x |-> X.x, body |-> X.body, env |-> st.e])])
 
+(* body where { x1: T1 == v1; ..; xn: Tn == vn }: the body sees the constants; the definitions see the outer names only *)
+(* (names are unique in a program, so the chain of lets below captures nothing)                                          *)
+RECURSIVE LetChain(_, _)
+LetChain(defs, body) ==
+  IF defs = <<>> THEN body ELSE [e |-> "let", x |-> defs[1].x, v |-> defs[1].v, body |-> LetChain(Tail(defs), body)]
+EvWhere == IsEv /\ X.e = "where" /\ Go([st EXCEPT !.c = Ev(LetChain(X.defs, X.body))])
 EvLam == IsEv /\ X.e = "lam" /\
   Go([st EXCEPT !.s = Alloc(st.s, [o |-> "clos", ps |-> X.ps, body |-> X.body, env |-> st.e]),
                 !.c = Val(VRef(Len(st.s) + 1))])
@@ -573,7 +579,7 @@ Init == /\ pid \in 1..Len(Progs)
 Step == \/ EvLit \/ EvBool \/ EvStr \/ EvUnit \/ EvVar \/ EvMac \/ EvPrim \/ EvCall \/ EvCallV \/ EvPrint
         \/ EvList \/ EvCons \/ EvListOp \/ EvNewArr \/ EvARef \/ EvASet \/ EvALen \/ EvMkRec \/ EvRGet \/ EvRSet
         \/ EvMkUn \/ EvUIs \/ EvUGet \/ EvDCall \/ EvThrow \/ EvIf \/ EvAnd \/ EvOr \/ EvSeq \/ EvAsg \/ EvLet \/ EvLam \/ EvGen
-        \/ EvWhile \/ EvFor \/ EvForIn \/ EvBreak \/ EvIter \/ EvRet \/ EvYield \/ EvTry \/ EvError \/ EvAssert \/ RetAssert \/ EvTuple \/ EvMAsg \/ RetMAsg \/ EvCollect \/ RetCollNext \/ RetCollCond \/ RetCollBody \/ EvACall \/ EvPerRep
+        \/ EvWhile \/ EvFor \/ EvForIn \/ EvBreak \/ EvIter \/ EvRet \/ EvYield \/ EvTry \/ EvError \/ EvAssert \/ RetAssert \/ EvTuple \/ EvMAsg \/ RetMAsg \/ EvCollect \/ RetCollNext \/ RetCollCond \/ RetCollBody \/ EvACall \/ EvPerRep \/ EvWhere
         \/ RetArgsNext \/ RetArgsApply \/ RetIf \/ RetAnd \/ RetOr \/ RetSeq \/ RetExitTaken \/ RetExitNot
         \/ RetAsg \/ RetLet \/ RetWhileCond \/ RetWhileBody \/ RetForStep \/ RetForInList \/ RetForInGen
         \/ RetGenEnd \/ RetYieldK \/ YieldUnwind \/ YieldDeliver \/ RetCall \/ RetRetK \/ RetUnwind \/ RetArrive
